@@ -100,14 +100,28 @@ def check_error_ctor_pure(cx: Cx, ci, doc: str = None) -> bool:
         return True
     done.add(ci.qualname)
     bad = None
-    for n_ in ast.walk(init[0].node):
-        if isinstance(n_, ast.Call):
-            f_ = n_.func
-            is_super = isinstance(f_, ast.Attribute) and f_.attr == '__init__'
-            is_fmt = isinstance(f_, ast.Name) and f_.id in ('str', 'repr', 'format', 'super', 'type') or \
-                (isinstance(f_, ast.Attribute) and f_.attr in ('format', 'join'))
-            if not (is_super or is_fmt):
-                bad = n_
+    bodies = [init[0].node]
+    seen_h = set()
+    while bodies:
+        body_ = bodies.pop()
+        for n_ in ast.walk(body_):
+            if isinstance(n_, ast.Call):
+                f_ = n_.func
+                is_super = isinstance(f_, ast.Attribute) and f_.attr == '__init__'
+                is_fmt = isinstance(f_, ast.Name) and f_.id in ('str', 'repr', 'format', 'super', 'type') or \
+                    (isinstance(f_, ast.Attribute) and f_.attr in ('format', 'join'))
+                # a message built by a private helper of the error class itself (`Error._describe(x)`): the helper is held to the same rule
+                own = None
+                if isinstance(f_, ast.Attribute) and isinstance(f_.value, ast.Name) and f_.attr.startswith('_') and \
+                        f_.value.id in (ci.name, 'self', 'cls') and f_.attr in ci.methods:
+                    own = ci.methods[f_.attr][0]
+                if own is not None:
+                    if own.qualname not in seen_h:
+                        seen_h.add(own.qualname)
+                        bodies.append(own.node)
+                    continue
+                if not (is_super or is_fmt):
+                    bad = bad or n_
     # a typed format specification ({x:d}, {x:.2f}, '%d' % x) fails for an argument of another type - the unknown NAME that the
     # module-level lookup reports through the same class - and the operation then ends in ValueError / TypeError
     spec = None
@@ -117,7 +131,8 @@ def check_error_ctor_pure(cx: Cx, ci, doc: str = None) -> bool:
             if any(c in txt for c in 'dfeEgGxXobn%c'):
                 spec = spec or n_
         elif isinstance(n_, ast.BinOp) and isinstance(n_.op, ast.Mod) and isinstance(n_.left, ast.Constant) and isinstance(n_.left.value, str) \
-                and any(('%' + c) in n_.left.value for c in 'dfeEgGxXoic'):
+                and (any(('%' + c) in n_.left.value for c in 'dfeEgGxXoic') or not isinstance(n_.right, ast.Tuple)):
+            # ('... %s ...' % arg with a bare argument fails when the argument is itself a tuple - a tuple identifier)
             spec = spec or n_
     if bad is None and spec is not None:
         cx.violation('R-PURE', init[0].qualname, 'error-constructor-only-stores-and-formats',
@@ -875,6 +890,16 @@ def check_overrides_forward(cx: Cx, cls_q: str, names: List[str], rule='R-FWD'):
             fn = sub.methods[name][0]
             n += 1
             okf = True
+            # the override accepts what the verified method accepts: same positional parameters (a narrowed signature -
+            # GridWorld.get_cell(x, y) - makes get_cell(x, y, 0) a TypeError)
+            bfn = next((m[0] for c0 in cx.prog.mro(sub)[1:] for m in [getattr(c0, 'methods', {}).get(name)] if m), None)
+            if bfn is not None and not fn.vararg and len(fn.params) < len(bfn.params):
+                okf = False
+                cx.violation(rule, fn.qualname, f"override-of-{name}-only-forwards",
+                             f"{fn.qualname} overrides {cls_q.rsplit('.', 1)[-1]}.{name} with fewer positional parameters ({fn.params[1:]} "
+                             f"instead of {bfn.params[1:]}): calls the verified {name} accepts raise TypeError for {sub.name}",
+                             where=cx.where(fn))
+                continue
             for p in cx.walker.paths(fn, WalkOptions(unroll=1, callee_raises=False)):
                 if p.end == 'raise':
                     if p.last.data.get('direct') and okf:
@@ -949,6 +974,61 @@ def check_error_is_plain_exception(cx: Cx, cls_q: str, rule='R-GUARD'):
                      f"caller who asked for it", where=ci.where)
     else:
         cx.ok(rule, f"{ci.name} is an ordinary Exception subclass", where=ci.where, function=cls_q)
+
+
+_PROTOCOL_DUNDERS = {'__iter__', '__len__', '__getitem__', '__contains__', '__bool__', '__eq__', '__ne__', '__hash__', '__lt__', '__le__',
+                     '__gt__', '__ge__', '__call__', '__getattr__', '__getattribute__', '__setattr__', '__delattr__', '__copy__', '__deepcopy__',
+                     '__reduce__', '__reduce_ex__', '__getstate__', '__setstate__', '__new__', '__init_subclass__', '__set_name__',
+                     '__enter__', '__exit__', '__index__', '__int__', '__float__', '__next__', '__reversed__', '__missing__', '__del__'}
+
+
+def check_no_new_protocol_dunders(cx: Cx):
+    """R-API: a documented class does not gain a protocol method it did not have.  `__len__` + `__getitem__` make an object iterable
+    (ParameterList.build then expands a LookupGenerator given as ONE value into its rows), `__eq__` changes `in` and `list.remove`
+    (two empty collectors become "the same system" for add_system), `__deepcopy__` changes what a copy shares, `__setattr__` what an
+    assignment does - all of it behaviour of the documented operations on existing objects."""
+    sigs = cx.walker._sigs()
+    if not sigs:
+        return
+    pinned_classes = {q.rsplit('.', 1)[0] for q in sigs if not q.startswith('#')}
+    bad = None
+    n = 0
+    for cq, ci in sorted(cx.prog.classes.items()):
+        if cq not in pinned_classes:
+            continue
+        for name, fns in ci.methods.items():
+            if name in _PROTOCOL_DUNDERS:
+                n += 1
+                if f"{cq}.{name}" not in sigs:
+                    bad = bad or (cq, name, fns[0])
+    if bad:
+        cq, name, f = bad
+        cx.violation('R-API', f.qualname, 'no-new-protocol-methods-on-documented-classes',
+                     f"{cq} gains {name}: iteration, truth value, equality, copying or attribute access of its objects now behave "
+                     f"differently inside the documented operations that use them (`in`, `list.remove`, `for`, `if obj:`, deepcopy)",
+                     where=cx.where(f))
+    else:
+        cx.ok('R-API', f"no documented class gained a protocol method ({n} existing ones examined)", function='<package>')
+
+
+def check_import_has_no_side_effects(cx: Cx, rule='R-ENTROPY'):
+    """Importing the package configures nothing process-wide: no bare call statement at module level (numpy.seterr, warnings
+    filters, random.seed, logging.basicConfig, ...)."""
+    bad = None
+    n = 0
+    for mi in cx.prog.modules.values():
+        for st in mi.tree.body:
+            n += 1
+            if isinstance(st, ast.Expr) and isinstance(st.value, ast.Call):
+                bad = bad or (mi, st)
+    if bad:
+        mi, st = bad
+        cx.violation(rule, mi.name, 'import-configures-nothing',
+                     f"{mi.relpath}:{st.lineno} runs `{ast.unparse(st.value)[:80]}` when the module is imported: process-wide state "
+                     f"(numpy's error mode, warning filters, a global generator) now depends on whether this package was imported, and user "
+                     f"code that was legal raises or behaves differently", where=f"{mi.relpath}:{st.lineno}")
+    else:
+        cx.ok(rule, f"no module of the package calls anything at import time ({n} module-level statements examined)", function='<package>')
 
 
 def check_deprecated_aliases_forward(cx: Cx, cls_q: str, rule='R-FWD', only=None):
